@@ -115,6 +115,8 @@ class World:
             strict=c.get("strict", True),
         )
         FS.active = True
+        if c.get("sim_mtime"):
+            FS.mtime_source = CLOCK.time_ns
         self.srv.start()
 
     def restart(self):
@@ -131,9 +133,9 @@ class World:
         FS.active = False
         self.srv.kill()
         gc.collect()
-        keep = (FS.listing_rng, FS.observers)
+        keep = (FS.listing_rng, FS.observers, FS.mtime_source)
         FS.reset()
-        FS.listing_rng, FS.observers = keep
+        FS.listing_rng, FS.observers, FS.mtime_source = keep
         FS.active = True
         self.srv.start()
 
